@@ -119,6 +119,19 @@ pub fn cases(tier: Tier) -> Vec<Case> {
         }
     }
     out.extend(wide_cases());
+    out.extend(deep_cases());
+    // infix `not`: x not OP y is not(x OP y), for every calculating operator and operand pair
+    for op in ALL_INFIX {
+        if op.ends_with('=') && !matches!(*op, "==" | "!=" | "<=" | ">=") {
+            continue;
+        }
+        for a in &v {
+            for b in &v {
+                out.push(Case { program: format!("a not {} b", op), bindings: bind(&["a", "b"], &[a, b]), key: format!("not-{}:{}:{}", op, class(a), class(b)), lenient_err: false });
+            }
+        }
+    }
+    out.extend(unary_compositions(&v));
     // depth-2 compositions (a op1 b) op2 c
     let ops2 = ["+", "-", "*", "/", "%", "<", "<=", "==", "!=", "&&", "||", "|", "&", "<<", ">>", "in", "beginWith"];
     let small = if tier == Tier::Quick { alphabet_small() } else { alphabet() };
@@ -137,6 +150,33 @@ pub fn cases(tier: Tier) -> Vec<Case> {
                         });
                     }
                 }
+            }
+        }
+    }
+    out
+}
+
+/// one-operand operators composed: prefix over prefix, prefix over postfix, postfix over
+/// prefix / postfix, over every value (a fused or cancelled pair must still type-check)
+pub fn unary_compositions(v: &[Value]) -> Vec<Case> {
+    let mut out = Vec::new();
+    let pre = ["-", "+", "!", "not", "AND", "OR"];
+    let post = ["++", "--"];
+    for a in v {
+        for p1 in pre {
+            for p2 in pre {
+                out.push(Case { program: format!("{} {} a", p1, p2), bindings: bind(&["a"], &[a]), key: format!("prefix{}-over-prefix{}:{}", p1, p2, class(a)), lenient_err: false });
+                out.push(Case { program: format!("{} {} {}", p1, p2, as_expr(a)), bindings: vec![], key: format!("prefix{}-over-prefix{}:{}:literal", p1, p2, class(a)), lenient_err: false });
+            }
+            for q in post {
+                out.push(Case { program: format!("{} a {}", p1, q), bindings: bind(&["a"], &[a]), key: format!("prefix{}-over-postfix{}:{}", p1, q, class(a)), lenient_err: false });
+                out.push(Case { program: format!("{} {} {}", p1, as_expr(a), q), bindings: vec![], key: format!("prefix{}-over-postfix{}:{}:literal", p1, q, class(a)), lenient_err: false });
+                out.push(Case { program: format!("({} a) {}", p1, q), bindings: bind(&["a"], &[a]), key: format!("postfix{}-over-prefix{}:{}", q, p1, class(a)), lenient_err: false });
+            }
+        }
+        for q1 in post {
+            for q2 in post {
+                out.push(Case { program: format!("(a {}) {}", q1, q2), bindings: bind(&["a"], &[a]), key: format!("postfix{}-over-postfix{}:{}", q2, q1, class(a)), lenient_err: false });
             }
         }
     }
@@ -235,6 +275,46 @@ pub fn wide_cases() -> Vec<Case> {
             (format!("'{}' + '{}'", long, long), "concat"),
         ] {
             out.push(Case { program: prog, bindings: vec![], key: format!("wide:string:{}:n={}", what, n), lenient_err: false });
+        }
+    }
+    out
+}
+
+/// Depth / chain-length ladder: the value of operator chains and nested constructs at sizes
+/// around 16, 32, 64, 128, 256, 512 and 1024 (anything that counts depth, or treats a chain
+/// as nesting, changes behaviour at such a size).
+pub fn deep_cases() -> Vec<Case> {
+    let mut out = Vec::new();
+    let mut sizes: Vec<usize> = vec![21, 22];
+    for k in [16usize, 32, 64, 100, 128, 200, 256, 500, 512, 1000, 1024] {
+        sizes.extend([k - 1, k, k + 1]);
+    }
+    sizes.sort();
+    sizes.dedup();
+    for n in sizes {
+        let progs: Vec<(&str, String)> = vec![
+            ("sum-chain", format!("1{}", " + 1".repeat(n))),
+            ("alternating-chain", format!("1000{}", " - 3 + 1".repeat(n / 2))),
+            ("product-chain", format!("1{}", " * 2 * 0.5".repeat(n / 2))),
+            ("and-chain", format!("true{}", " && true".repeat(n))),
+            ("and-chain-false-last", format!("true{} && false", " && true".repeat(n))),
+            ("or-chain", format!("false{} || true", " || false".repeat(n))),
+            ("comparison-of-sums", format!("1{} == {}", " + 1".repeat(n), n + 1)),
+            ("assignment-chain", format!("{}7 ; [a0, a{}]", (0..n).map(|i| format!("a{} = ", i)).collect::<String>(), n - 1)),
+            ("statement-chain", format!("x = 0{} ; x", " ; x += 1".repeat(n))),
+            ("paren-nest", format!("{}1{}", "(1 + ".repeat(n), ")".repeat(n))),
+            ("list-nest", format!("{}1{}", "[".repeat(n), "]".repeat(n))),
+            ("call-nest", format!("{}1{}", "max(".repeat(n), ")".repeat(n))),
+            ("ternary-then-nest", format!("{}1{}", "true ? ".repeat(n), " : 2".repeat(n))),
+            ("ternary-else-nest", format!("{}2", "false ? 1 : ".repeat(n))),
+            ("minus-chain", format!("{}1", "- ".repeat(n))),
+            ("not-chain", format!("{}true", "not ".repeat(n))),
+            ("postfix-nest", format!("{}1{}", "(".repeat(n), " ++)".repeat(n))),
+            ("not-in-nest", format!("{}1 in [1]{}", "1 not in [".repeat(n), "]".repeat(n))),
+            ("map-nest", format!("{}1{}", "{1 : ".repeat(n), "}".repeat(n))),
+        ];
+        for (name, prog) in progs {
+            out.push(Case { program: prog, bindings: vec![], key: format!("deep:{}:n={}", name, n), lenient_err: false });
         }
     }
     out
